@@ -3,6 +3,7 @@ package rules
 import (
 	"go/ast"
 	"go/token"
+	"go/types"
 )
 
 // c20EV is a path together with the value an expression has on it.
@@ -216,6 +217,31 @@ func (x *c20SX) assignStmt(s *ast.AssignStmt, st *c20St) []*c20St {
 				out = append(out, r.st)
 			}
 			return out
+		}
+	}
+	// comma-ok lookup in a table: `v, ok := table[key]`
+	if len(s.Lhs) == 2 && len(s.Rhs) == 1 {
+		if ix, ok := ast.Unparen(s.Rhs[0]).(*ast.IndexExpr); ok {
+			if _, isMap := x.info.TypeOf(ix.X).Underlying().(*types.Map); isMap {
+				for _, it := range x.evList([]ast.Expr{ix.X, ix.Index}, st) {
+					switch {
+					case it.st.ctl != c20cRun:
+						out = append(out, it.st)
+					case it.vs[0].k != c20kAgg:
+						u := c20Unknown("lookup `%s` in a map that is not a constant table", x.srcOf(ix))
+						x.bind(s.Lhs, []c20V{u, u}, it.st, s)
+						out = append(out, it.st)
+					default:
+						for _, l := range x.lookup(it.vs[0], it.vs[1], it.st, ix) {
+							if l.st.ctl == c20cRun {
+								x.bind(s.Lhs, []c20V{l.v, {k: c20kBool, b: l.ok}}, l.st, s)
+							}
+							out = append(out, l.st)
+						}
+					}
+				}
+				return out
+			}
 		}
 	}
 	for _, it := range x.evList(s.Rhs, st) {
